@@ -1,6 +1,67 @@
 From Coq Require Import List NArith ZArith Bool.
-From LTV.C11 Require Import Model ProofsParams.
+From LTV.C11 Require Import Model ProofsParams Proofs Proofs2.
+Import ListNotations.
+Local Open Scope Z_scope.
 
 Theorem params_ok_now : ProofsParams.params_ok = true.
 Proof. exact ProofsParams.params_ok_now. Qed.
 Print Assumptions params_ok_now.
+
+(* receive_upload_choke / receive_download_choke move the four counters together *)
+Theorem slot_accounting : forall v c choke h h' r, slot v c choke h = Ok (h', r) ->
+  WF h -> WF h' /\ BalU h' = BalU h /\ BalQ h' = BalQ h /\ BalT h' = BalT h /\ D h' = D h + (if choke then 1 else -1).
+Proof. exact Proofs.eff_slot. Qed.
+Print Assumptions slot_accounting.
+
+Theorem set_queued_accounting : forall v c h h', set_queued v c h = Ok h' ->
+  WF h -> WF h' /\ BalU h' = BalU h /\ BalQ h' = BalQ h /\ BalT h' = BalT h /\ D h' = D h + 0.
+Proof. exact Proofs.eff_set_queued. Qed.
+Print Assumptions set_queued_accounting.
+
+Theorem set_not_queued_accounting : forall v c h h', set_not_queued v c h = Ok h' ->
+  WF h -> WF h' /\ BalU h' = BalU h /\ BalQ h' = BalQ h /\ BalT h' = BalT h /\ D h' = D h + 0.
+Proof. exact Proofs.eff_set_not_queued. Qed.
+Print Assumptions set_not_queued_accounting.
+
+Theorem set_snubbed_accounting : forall v c h h', set_snubbed v c h = Ok h' ->
+  WF h -> WF h' /\ BalU h' = BalU h /\ BalQ h' = BalQ h /\ BalT h' = BalT h /\ D h' = D h + 0.
+Proof. exact Proofs.eff_set_snubbed. Qed.
+Print Assumptions set_snubbed_accounting.
+
+Theorem set_not_snubbed_accounting : forall v c h h', set_not_snubbed v c h = Ok h' ->
+  WF h -> WF h' /\ BalU h' = BalU h /\ BalQ h' = BalQ h /\ BalT h' = BalT h /\ D h' = D h + 0.
+Proof. exact Proofs.eff_set_not_snubbed. Qed.
+Print Assumptions set_not_snubbed_accounting.
+
+Theorem counters_inv_conn_ops_partial : forall nt ng ops s,
+  (0 < nt)%nat -> (0 < ng)%nat -> forallb (fun p => conn_op (fst p)) ops = true ->
+  run (init nt ng) ops = Ok s -> consistent (s_up s) /\ consistent (s_dn s).
+Proof. exact Proofs2.counters_inv_conn_ops_partial. Qed.
+Print Assumptions counters_inv_conn_ops_partial.
+
+Theorem zero_when_lists_empty_partial : forall h, consistent h -> SEu h = 0 -> SEq h = 0 ->
+  h_cur h = 0 /\ SQu h = 0 /\ SQq h = 0 /\ STn h = 0.
+Proof. exact Proofs2.zero_when_lists_empty_partial. Qed.
+Print Assumptions zero_when_lists_empty_partial.
+
+Theorem limits_new_unchoke_guard_up : forall v c h h', v_dir v = Up -> try_unchoke_new v c h = Ok h' ->
+  h' = h \/
+  (let t := tor_of h c in let q := getq h (grp_of h t) in
+   (q_max q = unlimited \/ q_cu q < Z.of_N (q_max q)) /\
+   (h_max h = 0%N \/ h_cur h < Z.of_N (h_max h)) /\
+   gettn h t < Z.of_N (e_max (getent h t)) /\
+   cs_t (getcs h c) + 10000000 < v_now v).
+Proof. exact Proofs2.limits_new_unchoke_guard_up. Qed.
+Print Assumptions limits_new_unchoke_guard_up.
+
+Theorem tick_within_global_max_refuted :
+  exists ops s, run (init 2 2) ops = Ok s /\ h_max (s_up s) = 2%N /\
+    e_min (getent (s_up s) 0) = 3%N /\ e_min (getent (s_up s) 1) = 0%N /\
+    h_cur (s_up s) = 6 /\ lenZ (e_u (getent (s_up s) 1)) = 3.
+Proof. exact Proofs2.tick_within_global_max_refuted. Qed.
+Print Assumptions tick_within_global_max_refuted.
+
+Theorem download_set_queued_within_global_max_refuted :
+  exists ops s, run (init 1 1) ops = Ok s /\ h_max (s_dn s) = 1%N /\ h_cur (s_dn s) = 2.
+Proof. exact Proofs2.download_set_queued_within_global_max_refuted. Qed.
+Print Assumptions download_set_queued_within_global_max_refuted.
